@@ -145,8 +145,16 @@ def rand_payload(rng, kind, consistent=True):
         if rng.chance(1, 4):
             p += rng.bytes(rng.range(1, 6))
         if not consistent:
-            k = rng.below(3)
-            if k == 0:
+            k = rng.below(4)
+            if k == 3:
+                # cut exactly at / one byte into / one byte before a block boundary
+                pos = 26; cuts = [26, 27]
+                for _ in range(5):
+                    if pos + 2 > len(p): break
+                    l = int.from_bytes(p[pos:pos + 2], 'big'); pos += 2 + l
+                    cuts += [pos - 1, pos, pos + 1]
+                p = p[:max(0, min(rng.choice(cuts), len(p) - 1))]
+            elif k == 0:
                 p = p[:rng.range(0, len(p) - 1)]
             elif k == 1:
                 pos = 26 + 0
@@ -160,8 +168,13 @@ def rand_payload(rng, kind, consistent=True):
         if rng.chance(1, 4):
             p += rng.bytes(rng.range(1, 4))
         if not consistent:
-            k = rng.below(4)
-            if k == 0: p = p[:rng.range(0, len(p) - 1)]
+            k = rng.below(5)
+            if k == 4:
+                # cut exactly at a structural boundary: inside / right after the count, after the ids, at the pad byte, inside the vendor length
+                nids = int.from_bytes(p[36:38], 'big')
+                cut = rng.choice([36, 37, 38, 38 + nids, 38 + nids + nids % 2, 38 + nids + nids % 2 + 1, 38 + nids + nids % 2 + 2])
+                p = p[:min(cut, len(p) - 1)]
+            elif k == 0: p = p[:rng.range(0, len(p) - 1)]
             elif k == 1: p = p[:29] + bytes([rng.range(3, 255)]) + p[30:]
             elif k == 2: p = p[:36] + be(rng.choice([0xFFFF, len(p) - 38 + 1, len(p)]), 2) + p[38:]
             else: p = p[:len(p) - 1]
